@@ -817,6 +817,8 @@ pub fn check(t: &[&str], res: &str, m: &mut Vec<String>) {
                 let parts: Vec<&str> = res.split(" | ").collect();
                 if parts[0] != want {
                     m.push("FAIL C11 the clone of a datum differs from the datum (value or spans)".into());
+                    m.push(format!("FAIL C10 walking the clone of a datum with its accessors exposes {} instead of {}", parts[0], want));
+                    m.push("FAIL C15 the clone of a datum differs from the datum (value or spans)".into());
                 }
                 if parts.len() > 1 && !parts[1].starts_with("11") && !want.contains("D7ff") && !want.contains("Dfff") {
                     m.push(format!("FAIL C11 a datum and its clone do not compare equal: {}", parts[1]));
